@@ -88,7 +88,7 @@ async fn scenario(sim: Arc<Sim>, unit: Value) -> Obs {
     let t3 = sim.start(&NodeSpec::new(14).config(quiet_cfg())).unwrap();
     let t5 = sim.start(&NodeSpec::new(16).config(quiet_cfg())).unwrap();
     // black-hole addresses: bound (so nobody else gets them) but not attached to the fabric
-    let holes: Vec<std::net::UdpSocket> = (0..4).map(|_| std::net::UdpSocket::bind("127.0.0.1:0").unwrap()).collect();
+    let holes: Vec<std::net::UdpSocket> = (0..10).map(|_| std::net::UdpSocket::bind("127.0.0.1:0").unwrap()).collect();
     let hole = |i: usize| holes[i].local_addr().unwrap();
     let x = sim.start(&NodeSpec::new(10).config(cfg(&unit))).unwrap();
     let t_start = sim.now_us();
@@ -117,6 +117,15 @@ async fn scenario(sim: Arc<Sim>, unit: Value) -> Obs {
         // (with a connection limit of 0 it cannot connect first: then it is one more peer to dial)
         Target { name: "t5-already-connected", addrs: vec![t5.local_addr()], live_addr: Some(0), high: true, may_dial: unit["conn_limit"].as_u64() == Some(0), id: t5.peer_id() },
     ];
+    // High-affinity peers none of whose addresses ever answers: they are dialed, fail and back off
+    // for the whole run (and must not keep anybody else from being dialed while they back off)
+    let mut targets = targets;
+    let dead = unit["dead"].as_u64().unwrap_or(0) as usize;
+    const DEAD_NAMES: [&str; 5] = ["dead0", "dead1", "dead2", "dead3", "dead4"];
+    for d in 0..dead {
+        targets.push(Target { name: DEAD_NAMES[d], addrs: vec![hole(4 + d)], live_addr: None, high: true, may_dial: true, id: peer_id_of_key(40 + d as u8) });
+    }
+    let targets = targets;
     // t5 dials X before the table is installed
     if unit["conn_limit"].as_u64() != Some(0) {
         let pre = t5.connect(x.local_addr()).await;
@@ -176,7 +185,7 @@ async fn scenario(sim: Arc<Sim>, unit: Value) -> Obs {
     macro_rules! viol {
         ($k:expr, $($arg:tt)*) => { o.violations.push(($k.to_string(), format!($($arg)*))) };
     }
-    let cfgs = format!("[interval {}ms jitter {}ms step {}ms max {}ms cap {cap} table {table_variant} schedule {:?}{}]", unit["interval_ms"], unit["jitter_ms"], unit["step_ms"], unit["max_ms"], unit["schedule"], match unit["conn_limit"].as_u64() { Some(l) => format!(" max_concurrent_connections {l}"), None => String::new() });
+    let cfgs = format!("[interval {}ms jitter {}ms step {}ms max {}ms cap {cap} table {table_variant} schedule {:?}{}{}]", unit["interval_ms"], unit["jitter_ms"], unit["step_ms"], unit["max_ms"], unit["schedule"], match unit["conn_limit"].as_u64() { Some(l) => format!(" max_concurrent_connections {l}"), None => String::new() }, if dead > 0 { format!(" + {dead} High peers that never answer") } else { String::new() });
     // connected(p, t): is p listed by X at time t (from snapshot + timestamped events)
     let connected_at = |id: &anemo::PeerId, t: u64| -> bool {
         let mut c = snap.contains(id);
@@ -206,7 +215,9 @@ async fn scenario(sim: Arc<Sim>, unit: Value) -> Obs {
     let mut spans: Vec<(u64, u64)> = vec![]; // in-progress intervals of all attempts
     let mut n_attempts = 0;
     let mut n_fail = 0;
-    for tg in &targets {
+    // per target: (start, end, failed, consecutive failures after it)
+    let mut hist: Vec<Vec<(u64, u64, bool, usize)>> = vec![vec![]; targets.len()];
+    for (ti, tg) in targets.iter().enumerate() {
         let mine: Vec<(u64, usize)> = attempts.iter().filter_map(|(t, a)| tg.addrs.iter().position(|x| x == a).map(|i| (*t, i))).collect();
         if !tg.may_dial && !mine.is_empty() {
             viol!("dialed-ineligible-peer", "{cfgs} {} must never be dialed in the background but was, {} times (first at {} us)", tg.name, mine.len(), mine[0].0);
@@ -265,6 +276,7 @@ async fn scenario(sim: Arc<Sim>, unit: Value) -> Obs {
                 k = 0;
             }
             prev = Some((*t, end, failed));
+            hist[ti].push((*t, end, failed, k));
         }
         // liveness for peers whose live address is always reachable (t1): connected by the time the
         // rotation reaches the live address
@@ -340,6 +352,53 @@ async fn scenario(sim: Arc<Sim>, unit: Value) -> Obs {
             viol!("cap-exceeded", "{cfgs} an attempt started at {} us while {} others were in progress (cap {cap})", s, in_progress);
         }
     }
+    // work conservation: at a tick with free slots, peers that may be dialed right now are dialed
+    // (as many as there are free slots). Everything uncertain is resolved against the claim: an
+    // attempt that ended within the margin counts as in progress, a peer whose back-off ends
+    // within the margin (or that was lost / found within it) does not count as eligible.
+    {
+        let margin = 150_000u64;
+        let mut tick = tick_after(t_table);
+        while tick + CONNECT_TIMEOUT_US + margin < t_start + horizon_us {
+            let started_now = spans.iter().filter(|(a, _)| *a + 20_000 >= tick && *a <= tick + margin).count();
+            let in_progress = spans.iter().chain(explicit_spans.iter()).filter(|(a, b)| *a + 20_000 < tick && *b + margin > tick).count();
+            let free = cap.saturating_sub(in_progress);
+            let mut eligible = vec![];
+            for (ti, tg) in targets.iter().enumerate() {
+                if !tg.high || !tg.may_dial || tg.addrs.is_empty() {
+                    continue;
+                }
+                // listed at no instant near the tick
+                let near_listed = connected_at(&tg.id, tick.saturating_sub(margin)) || connected_at(&tg.id, tick + margin) || events.iter().any(|(te, e)| *te + margin >= tick && *te <= tick + margin && matches!(e, PeerEvent::NewPeer(p) | PeerEvent::LostPeer(p, _) if *p == tg.id));
+                if near_listed {
+                    continue;
+                }
+                let before: Vec<&(u64, u64, bool, usize)> = hist[ti].iter().filter(|h| h.0 + 20_000 < tick).collect();
+                let ok = match before.last() {
+                    None => true,
+                    Some((_, end, failed, k)) => {
+                        if *end + margin > tick {
+                            false // still (or just) in progress
+                        } else if !*failed {
+                            true // connected and lost again since: no back-off
+                        } else {
+                            let notice = tick_at_or_after(*end);
+                            notice + maxb.min(step.saturating_mul(*k as u64)) + margin < tick
+                        }
+                    }
+                };
+                if ok {
+                    eligible.push(tg.name);
+                }
+            }
+            let must = free.min(eligible.len());
+            if started_now < must {
+                viol!("free-slot-not-used", "{cfgs} at the connectivity check of {} us {} attempt(s) were in progress (cap {cap}) and {:?} could be dialed (High affinity, usable address, not connected, not being dialed, not backing off), yet only {} dial(s) started", tick, in_progress, eligible, started_now);
+                break;
+            }
+            tick += period;
+        }
+    }
     o.log.push(format!("attempts {:?}", attempts.iter().map(|(t, a)| (t / 1000, a.port())).collect::<Vec<_>>()));
     o.log.push(format!("events {:?}", events.iter().map(|(t, e)| (t / 1000, event_str(&sim, e))).collect::<Vec<_>>()));
     o.class = format!("attempts={} failures={} connected_t0={} connected_t1={}", n_attempts.min(12), n_fail.min(12), x.peers().contains(&targets[0].id), x.peers().contains(&targets[1].id));
@@ -407,7 +466,7 @@ impl Check for C13 {
         CheckMeta {
             property: "C13",
             level: "exploration",
-            rule: "configurations (interval x jitter x back-off step x max back-off x in-flight cap) x known-peer table variants (High with 1/2/3 addresses incl. black holes, Allowed, Never, self, address-less, already connected) x reachability schedules of a High target (up/down toggles from a menu of instants), each run for 60-120 virtual seconds; a connection limit of 0 / 1 (already filled) that background dials must ignore; small caps also with explicit dials to a silent address in flight (they hold slots); attempts read from the fabric; distinct = distinct (attempt count, failure count, final connectivity); plus a sweep of the back-off arithmetic".into(),
+            rule: "configurations (interval x jitter x back-off step x max back-off x in-flight cap) x known-peer table variants (High with 1/2/3 addresses incl. black holes, Allowed, Never, self, address-less, already connected) x reachability schedules of a High target (up/down toggles from a menu of instants), each run for 60-120 virtual seconds; a connection limit of 0 / 1 (already filled) that background dials must ignore; 2 or 4 further High peers that never answer, with caps 1 and 2 (at every check with free slots, as many peers that may be dialed are dialed); small caps also with explicit dials to a silent address in flight (they hold slots); attempts read from the fabric; distinct = distinct (attempt count, failure count, final connectivity); plus a sweep of the back-off arithmetic".into(),
             assumptions: vec!["tick instants are start + n*(interval + jitter) with the jitter pinned through the hook (values 0 and 900 ms)".into(), "connect timeout 1.5 s so that a dial to a black hole lasts exactly that long".into()],
             exhaustive: true,
         }
@@ -471,6 +530,22 @@ impl Check for C13 {
                             continue;
                         }
                         u.push(json!({"kind":"run","interval_ms":1_000,"jitter_ms":0,"step_ms":1_000,"max_ms":3_000,"cap":cap,"table":table,"schedule":sc,"horizon_s":70,"conn_limit":limit}));
+                    }
+                }
+            }
+        }
+        // several High-affinity peers that never answer (permanently failing, backing off) next to
+        // the reachable ones, with small caps
+        for dead in [2u64, 4] {
+            for cap in [1u64, 2] {
+                for (step, max) in [(1_000u64, 3_000u64), (10_000, 15_000)] {
+                    for table in [1u64, 2] {
+                        for (si, sc) in schedules.iter().enumerate() {
+                            if si > 2 && tier == Tier::Quick {
+                                continue;
+                            }
+                            u.push(json!({"kind":"run","interval_ms":1_000,"jitter_ms":0,"step_ms":step,"max_ms":max,"cap":cap,"table":table,"schedule":sc,"horizon_s":70,"dead":dead}));
+                        }
                     }
                 }
             }
